@@ -38,6 +38,24 @@ Proof. split; vm_compute; reflexivity. Qed.
 Theorem C16_producers_guarded : producers_guarded trait_impls = true.
 Proof. vm_compute. reflexivity. Qed.
 
+(* a type-erased component shared between threads on the strength of an unsafe impl that cannot
+   name it is thread-safe by its trait: `trait Clock: Sync` *)
+Theorem C16_erased_guarded : erased_guarded dyn_traits = true.
+Proof. vm_compute. reflexivity. Qed.
+
+(* a future that erases the type of its channel behind `dyn ...Access<T>` is Send only if the
+   channel behind the reference may be reached from the other thread - for every link outside
+   the recorded finding D5 (the mpmc futures cannot name the buffer type A; see
+   known_findings.json and DESIGN 4).  The links of the class D5 are evaluated by the check
+   (Gen/C16Diag.v) and reported as KNOWN-FINDING while they fail. *)
+Theorem C16_erased_links_sound :
+  forall l, In l erased_links -> known_gap l = false -> link_ok structs impls l = true.
+Proof.
+  assert (H : forallb (fun l => known_gap l || link_ok structs impls l) erased_links = true)
+    by (vm_compute; reflexivity).
+  intros l Hin Hk. rewrite forallb_forall in H. specialize (H l Hin). rewrite Hk in H. exact H.
+Qed.
+
 (* completeness: what the crate promises for thread-safe locks and Send payloads holds *)
 Theorem C16_complete :
   forall r, In r promised ->
@@ -52,3 +70,5 @@ Print Assumptions C16_sound.
 Print Assumptions C16_table_covers_impls.
 Print Assumptions C16_complete.
 Print Assumptions C16_producers_guarded.
+Print Assumptions C16_erased_guarded.
+Print Assumptions C16_erased_links_sound.
